@@ -52,12 +52,50 @@ func runC15_1(c *core.Ctx) {
 		return
 	}
 	for _, f := range lbNexts(c) {
-		isLoops := func(e ast.Expr) bool {
+		var isLoops func(e ast.Expr) bool
+		derived := map[types.Object]int{} // 0 unknown, 1 being judged / yes, 2 no
+		isLoops = func(e ast.Expr) bool {
 			e = ast.Unparen(e)
 			if se, ok := e.(*ast.SliceExpr); ok {
 				e = ast.Unparen(se.X)
 			}
-			return flow.FieldOf(f.Info, e) == loops
+			if flow.FieldOf(f.Info, e) == loops {
+				return true
+			}
+			// a local slice that only ever holds (sub-slices of) eventLoops: rest := lb.eventLoops[1:]; rest = rest[1:]
+			o, ok := flow.ObjOf(f.Info, e).(*types.Var)
+			if !ok || o.IsField() {
+				return false
+			}
+			if _, isSlice := o.Type().Underlying().(*types.Slice); !isSlice {
+				return false
+			}
+			switch derived[o] {
+			case 1:
+				return true
+			case 2:
+				return false
+			}
+			derived[o] = 1
+			n, all := 0, true
+			ast.Inspect(f.Decl.Body, func(x ast.Node) bool {
+				if as, ok := x.(*ast.AssignStmt); ok && len(as.Lhs) == len(as.Rhs) {
+					for k, l := range as.Lhs {
+						if flow.ObjOf(f.Info, l) == types.Object(o) {
+							n++
+							if !isLoops(as.Rhs[k]) {
+								all = false
+							}
+						}
+					}
+				}
+				return true
+			})
+			if n == 0 || !all {
+				derived[o] = 2
+				return false
+			}
+			return true
 		}
 		var isElement func(e ast.Expr) bool
 		seen := map[types.Object]bool{}
@@ -532,12 +570,68 @@ func runC15_5(c *core.Ctx) {
 		}
 	}
 	c.Check(initEl && initMin, f.Name, "initial candidate", f.Decl.Pos(), "eventLoops[0] and its connection count", "the search does not start from eventLoops[0] with its own count as the minimum")
-	if rng == nil {
-		c.Violate(f.Name, "range over the remaining loops", f.Decl.Pos(), "no range loop over the event loops")
+	// the loop over the remaining loops: `for _, v := range X` or the slice walk `for rest := X; len(rest) > 0; rest = rest[1:]`
+	var loopBody *ast.BlockStmt
+	var loopX ast.Expr
+	var loopPos token.Pos
+	isV := func(e ast.Expr) bool { return false }
+	if rng != nil {
+		loopBody, loopX, loopPos = rng.Body, rng.X, rng.Pos()
+		vo := flow.ObjOf(f.Info, rng.Value)
+		isV = func(e ast.Expr) bool { return vo != nil && flow.ObjOf(f.Info, e) == vo }
+	} else {
+		for _, st := range f.Decl.Body.List {
+			fs, ok := st.(*ast.ForStmt)
+			if !ok || fs.Init == nil || fs.Cond == nil || fs.Post == nil {
+				continue
+			}
+			init, ok1 := fs.Init.(*ast.AssignStmt)
+			post, ok2 := fs.Post.(*ast.AssignStmt)
+			if !ok1 || !ok2 || len(init.Lhs) != 1 || len(init.Rhs) != 1 || len(post.Lhs) != 1 || len(post.Rhs) != 1 {
+				continue
+			}
+			rest := flow.ObjOf(f.Info, init.Lhs[0])
+			if rest == nil || flow.ObjOf(f.Info, post.Lhs[0]) != rest {
+				continue
+			}
+			// rest = rest[1:]
+			se, ok := ast.Unparen(post.Rhs[0]).(*ast.SliceExpr)
+			if !ok || flow.ObjOf(f.Info, se.X) != rest || se.High != nil || flow.ConstOf(f.Info, se.Low) == nil || flow.ConstOf(f.Info, se.Low).ExactString() != "1" {
+				continue
+			}
+			// len(rest) > 0 (any spelling that excludes exactly the empty slice)
+			x, y, op, ok := flow.Cmp(fs.Cond)
+			if !ok {
+				continue
+			}
+			lc, isCall := ast.Unparen(x).(*ast.CallExpr)
+			cv := flow.ConstOf(f.Info, y)
+			if !isCall || cv == nil || len(lc.Args) != 1 || flow.ObjOf(f.Info, lc.Args[0]) != rest {
+				continue
+			}
+			k, _ := constant.Int64Val(constant.ToInt(cv))
+			t0, ok0 := ival{lo: 0, hi: 0}.cmp(op, k)
+			t1, ok1b := ival{lo: 1, hiInf: true}.cmp(op, k)
+			if !ok0 || !ok1b || t0 || !t1 {
+				continue
+			}
+			loopBody, loopX, loopPos = fs.Body, init.Rhs[0], fs.Pos()
+			isV = func(e ast.Expr) bool {
+				ie, ok := ast.Unparen(e).(*ast.IndexExpr)
+				if !ok || flow.ObjOf(f.Info, ie.X) != rest {
+					return false
+				}
+				c0 := flow.ConstOf(f.Info, ie.Index)
+				return c0 != nil && c0.ExactString() == "0"
+			}
+		}
+	}
+	if loopBody == nil {
+		c.Violate(f.Name, "range over the remaining loops", f.Decl.Pos(), "no loop over the event loops (a range, or a walk `for rest := …; len(rest) > 0; rest = rest[1:]`)")
 		return
 	}
 	// range over eventLoops[1:] or all
-	rx := ast.Unparen(rng.X)
+	rx := ast.Unparen(loopX)
 	okRange := false
 	if se, ok := rx.(*ast.SliceExpr); ok && flow.FieldOf(f.Info, se.X) == loops && se.High == nil {
 		if se.Low == nil {
@@ -550,15 +644,14 @@ func runC15_5(c *core.Ctx) {
 	} else if flow.FieldOf(f.Info, rx) == loops {
 		okRange = true
 	}
-	c.Check(okRange, f.Name, "range over the remaining loops", rng.Pos(), "every loop after the first is examined", "the range does not cover all remaining event loops (a loop is never considered)")
-	vObj := flow.ObjOf(f.Info, rng.Value)
+	c.Check(okRange, f.Name, "range over the remaining loops", loopPos, "every loop after the first is examined", "the range does not cover all remaining event loops (a loop is never considered)")
 	// inside: assignments to result/min only under n < min with n = v.countConn()
-	g := flow.New(c.P.Fset, f.Info, rng.Body)
+	g := flow.New(c.P.Fset, f.Info, loopBody)
 	const fLess = 1
 	var nObj types.Object
-	ast.Inspect(rng.Body, func(n ast.Node) bool {
+	ast.Inspect(loopBody, func(n ast.Node) bool {
 		if as, ok := n.(*ast.AssignStmt); ok && len(as.Lhs) == 1 && len(as.Rhs) == 1 {
-			if call, ok := ast.Unparen(as.Rhs[0]).(*ast.CallExpr); ok && flow.IsCall(f.Info, call, count) && flow.ObjOf(f.Info, flow.Recv(call)) == vObj && vObj != nil {
+			if call, ok := ast.Unparen(as.Rhs[0]).(*ast.CallExpr); ok && flow.IsCall(f.Info, call, count) && flow.Recv(call) != nil && isV(flow.Recv(call)) {
 				nObj = flow.ObjOf(f.Info, as.Lhs[0])
 			}
 		}
@@ -569,17 +662,17 @@ func runC15_5(c *core.Ctx) {
 			return true
 		}
 		call, ok := ast.Unparen(e).(*ast.CallExpr)
-		return ok && flow.IsCall(f.Info, call, count) && flow.ObjOf(f.Info, flow.Recv(call)) == vObj && vObj != nil
+		return ok && flow.IsCall(f.Info, call, count) && flow.Recv(call) != nil && isV(flow.Recv(call))
 	}
 	evaluates := nObj != nil
-	ast.Inspect(rng.Body, func(n ast.Node) bool {
+	ast.Inspect(loopBody, func(n ast.Node) bool {
 		if e, ok := n.(ast.Expr); ok && isCountOfV(e) {
 			evaluates = true
 		}
 		return true
 	})
 	if !evaluates || minObj == nil {
-		c.Violate(f.Name, "count of the examined loop", rng.Pos(), "the loop body does not evaluate countConn() of the range element")
+		c.Violate(f.Name, "count of the examined loop", loopPos, "the loop body does not evaluate countConn() of the range element")
 		return
 	}
 	p := &flow.Problem{Must: true}
@@ -613,7 +706,7 @@ func runC15_5(c *core.Ctx) {
 			}
 			good := before&fLess != 0 && len(as.Rhs) == len(as.Lhs)
 			if good && o == resObj {
-				good = flow.ObjOf(f.Info, as.Rhs[k]) == vObj
+				good = isV(as.Rhs[k])
 				setEl = setEl || good
 			}
 			if good && o == minObj {
@@ -624,5 +717,5 @@ func runC15_5(c *core.Ctx) {
 				"candidate/minimum is replaced outside the `count < minimum` edge or with a value other than the examined loop / its count: the chosen loop need not have the minimal connection count")
 		}
 	})
-	c.Check(setEl && setMin, f.Name, "candidate and minimum updated together", rng.Pos(), "both follow the better loop", "the candidate loop and the running minimum are not both updated on the `<` edge: later comparisons use a stale minimum")
+	c.Check(setEl && setMin, f.Name, "candidate and minimum updated together", loopPos, "both follow the better loop", "the candidate loop and the running minimum are not both updated on the `<` edge: later comparisons use a stale minimum")
 }
